@@ -60,14 +60,14 @@ CHECKS = {
         text=('Lean theorems for BOTH engines (C05_sound / C05_fromdict_sound, C05_v1_sound / C05_v1_fromdict_sound): for every type '
               'built from the scalar kinds (v1: incl. bytes / bytearray; Literal by == and type), Any, Optional, list / set / '
               'frozenset / deque, variadic tuples, fixed tuples (default engine: members that do not accept None, then the count is '
-              'exact; v1: all), dict-like types, TypedDict, Unions (default: both phases of the Union parser; v1: tag dispatch, '
+              'exact; v1: all), dict-like types, TypedDict, NamedTuple, Unions (default: both phases of the Union parser; v1: tag dispatch, '
               'exact-type fast path, try-parse, coercion pass) and dataclasses nested to any depth, for EVERY JSON input (nan / inf / '
               'huge / junk / wrong containers) and any travelling config: the result is an instance of the annotation (exact '
               'container kinds, exact tuple length, declared fields in order holding loaded values, the catch-all dictionary or '
               'declared defaults; a Union result sound for one declared member) - induction over the type through the key loop / '
               'generated field loop, junk inputs and the constructor step; scalar soundness by case analysis; no load hook writes its '
               'arguments (ast effect summaries regenerated each run); witnesses of the two recorded findings and of the repaired '
-              'Union defect. NamedTuple, fixed tuples with None-accepting members and the None annotation are covered by the oracle: '
+              'Union defect. no function generated for the battery writes through a parameter (C05_generated_no_input_writes, AST table regenerated each run). Fixed tuples with None-accepting members and the None annotation (recorded findings) are covered by the oracle: '
               'models tied to the code on malformed + near-miss streams on both engines; exact-type conforms() (user subclasses, mix- '
               'in Enums, shared Patterns) / input-mutation oracle; directed reproductions of the recorded findings '),
         technique='Lean 4 proof over a hand model + effect summaries + differential correspondence', ref='4 C05'),
